@@ -57,3 +57,7 @@ impl<R: Read + Send> Iterator for ChunkIter<R> {
         }
     }
 }
+
+#[cfg(kani)]
+#[path = "/verif/harness/chunker.rs"]
+pub(crate) mod verif_harness;
